@@ -961,8 +961,24 @@ pub fn generate_c07(rng: &mut Rng) -> Scenario {
     Scenario { world, argv, sim, note: format!("C07 {} class={} dry_run={} allow={:?}", program.template, class, dry_run, allowed), meta: serde_json::to_value(&meta).unwrap() }
 }
 
-pub fn is_generator_phase(d: &Diag) -> bool {
-    d.message.starts_with("unable to run code-generator") || d.message.starts_with("unable to write generated file")
+/// Errors of the generation phase are recognised by WHAT they are about, not by their wording: they name a listed
+/// generator or a file that some generator's reply asked for (compile-phase errors name input files, identifiers,
+/// types - never these).
+pub fn is_generator_phase(d: &Diag, generator_paths: &[String], reply_paths: &[String]) -> bool {
+    d.error && d.location.is_empty() && (generator_paths.iter().any(|g| d.message.contains(g.as_str())) || reply_paths.iter().any(|p| d.message.contains(&format!("'{p}'"))))
+}
+
+/// Everything the generators of this run asked to be written (decodable prefixes included), as spelled in replies.
+pub fn reply_paths_of(trace: &[Event]) -> Vec<String> {
+    let mut out = Vec::new();
+    for h in generator_histories(trace) {
+        for f in lenient_files(&h.stdout) {
+            out.push(String::from_utf8_lossy(&f.path).into_owned());
+        }
+    }
+    out.sort();
+    out.dedup();
+    out
 }
 
 pub fn judge_c07(s: &Scenario, r: &RunResult) -> Judged {
@@ -974,7 +990,9 @@ pub fn judge_c07(s: &Scenario, r: &RunResult) -> Judged {
     let diags = parse_diagnostics(&r.stderr, meta.json);
     let errors: Vec<&Diag> = diags.iter().filter(|d| d.error).collect();
     let warnings: Vec<&Diag> = diags.iter().filter(|d| !d.error).collect();
-    let compile_errors: Vec<&&Diag> = errors.iter().filter(|d| !is_generator_phase(d)).collect();
+    let gen_paths: Vec<String> = meta.generators.iter().map(|g| g.path.clone()).collect();
+    let reply_paths = reply_paths_of(&r.trace);
+    let compile_errors: Vec<&&Diag> = errors.iter().filter(|d| !is_generator_phase(d, &gen_paths, &reply_paths)).collect();
     let spawns = r.trace.iter().filter(|e| matches!(e.kind, Ev::Spawn { .. })).count();
     let write_opens = r
         .trace
